@@ -265,7 +265,9 @@ func (d *PushDispatcher) runRoute(
 				continue
 			}
 			action := d.classifyDelivery(logger, env, target)
-			if !useBatchMutations {
+			if !useBatchMutations || action.kind == leaseActionNack {
+				// A retry is never deferred: its backoff delay counts from the
+				// failure, not from the end of the micro-batch.
 				d.applyLeaseAction(logger, action)
 				continue
 			}
